@@ -97,6 +97,8 @@ pub struct HalState {
     pub p2v: Vec<(u64, usize, usize)>,
     /// if set, `share` of a `DeviceToDriver` buffer fills the bounce buffer with this byte
     pub poison: u8,
+    /// indices of live shares (kept small so long soaks stay linear)
+    pub live_idx: Vec<usize>,
 }
 
 thread_local! {
@@ -205,7 +207,7 @@ impl HalState {
     }
 
     pub fn live_shares(&self) -> usize {
-        self.shares.iter().filter(|s| s.live).count()
+        self.live_idx.len()
     }
     pub fn live_dma(&self) -> usize {
         self.dma.iter().filter(|s| s.live).count()
@@ -320,11 +322,13 @@ unsafe impl Hal for LedgerHal {
                 h.violations.push(format!("share({}) with direction Both", name));
             }
             // a live share of an overlapping range means the same memory is shared twice
-            for (j, s) in h.shares.iter().enumerate() {
+            for j in h.live_idx.iter() {
+                let s = &h.shares[*j];
                 if s.live && (s.orig as usize) < ptr as usize + len && (ptr as usize) < s.orig as usize + s.len {
                     h.violations.push(format!("share({}) overlaps live share S{}", name, j));
                 }
             }
+            h.live_idx.push(k);
             let mut bounce = vec![h.poison; len];
             if direction != BufferDirection::DeviceToDriver {
                 // SAFETY: caller guarantees the buffer is valid.
@@ -372,6 +376,7 @@ unsafe impl Hal for LedgerHal {
                     }
                     s.live = false;
                     h.violations.extend(v);
+                    h.live_idx.retain(|x| *x != k);
                 }
             }
             h.events.push_ev(HalEv::Unshare { k: found, name, len, dir: direction, ap: access_platform });
